@@ -674,6 +674,21 @@ class World:
         else:
             self.result = ("outcome", r) if meth == "execute" else ("return", r)
         self.t(("end", self.now))
+        if not self.sym.symbolic:  # replay: leave a readable trace of this run in the evidence sample
+            def compact(e):
+                if e[0] in ("metric",):
+                    return f"metric:{e[1]}@{e[2]}"
+                if e[0] == "log":
+                    return None
+                if e[0] == "strategy":
+                    return f"strategy:{e[1]}->{e[4]}"
+                if e[0] == "handler":
+                    return f"handler({e[2]})->{e[3].value}"
+                return ":".join(str(x) for x in e[:3] if not hasattr(x, "__dict__") or isinstance(x, (int, str)))
+            tr = [c for c in (compact(e) for e in self.trace) if c][:60]
+            kind, o = self.result
+            self.sym.note("trace", tr)
+            self.sym.note("result", f"{kind}: {o!r}"[:200])
         return self.result
 
     def run(self, entry, *, breaker=None, inject=None, capture_timeline=False):
